@@ -279,7 +279,7 @@ Inductive body_arg := BBytes (b : bytes) | BText (t : str).
 Inductive charset_arg := ChMarker | ChNone | ChSome (s : str).
 Record cargs := mkArgs {
   a_body : option body_arg;
-  a_status : option sarg;
+  a_status : option sarg;         (* status=, or (repaired code, fixes/C02-2) status_code= / status_int= when status is not given *)
   a_headerlist : option hdrs;
   a_app : option appit;
   a_ctype : option str;
